@@ -265,8 +265,8 @@ def run_case(case, ctx):
                   lambda: f"factor columns are not unit 2-norm: {[n_.tolist() for n_ in nn]}")
         ctx.check(not (M.weights < 0).any() and not (np.diff(M.weights) > 1e-12).any(), "cp_als", "NORMAL-FORM", f"weights not non-negative descending: {M.weights.tolist()}")
         ctx.check(out["iters"] + 1 <= mi, "cp_als", "ITERS", f"iters {out['iters']} exceeds maxiters {mi}")
-        if stop0:
-            ctx.check(out["iters"] + 1 == mi, "cp_als", "ITERS", f"stoptol=0: iters {out['iters']} but maxiters {mi}")
+        # (with stoptol=0 the unchanged code always uses every iteration; the property only promises that the limit is respected, so an
+        # implementation that stops once the fit no longer changes is not judged)
         # least-squares normal equations of the mode updated last
         n = do[-1]
         others = [k for k in range(N) if k != n]
